@@ -297,6 +297,11 @@ func (cs *ContractSet) parseFile(fset *token.FileSet, f *ast.File, pkgPath, file
 	finish := func() {
 		if cur != nil {
 			propagateProps(cur)
+			// an extern (assumed) contract and a func (verified) contract for the same function: whichever were read
+			// last would win, and an extern one would silently switch the verification of the body off
+			if old, ok := cs.Funcs[cur.Pkg+"::"+cur.FuncName]; ok && old.Extern != cur.Extern {
+				cs.Errors = append(cs.Errors, fmt.Sprintf("%s:%d: %s.%s has both an extern (assumed) contract and a func (verified) contract: the extern one would shadow the verification of the body", fileName, cur.Line, cur.Pkg, cur.FuncName))
+			}
 			cs.Funcs[cur.Pkg+"::"+cur.FuncName] = cur
 			cur = nil
 		}
